@@ -28,6 +28,7 @@ type FuncResult struct {
 	Abstractions []abstraction `json:"abstractions"`
 	Trusted      []string      `json:"trusted"`
 	UnusedCallee []string      `json:"unused_callee_clauses,omitempty"`
+	GuardClauses []string      `json:"guard_clauses,omitempty"` // requires of callee clauses no call matches on this tree: they guard calls a change may introduce
 	Loops        int           `json:"loops"`
 	LoopsNoInv   []int         `json:"loops_without_invariant,omitempty"`
 	Drift        []string      `json:"drift,omitempty"`
@@ -341,6 +342,9 @@ func verifyFunction(w *World, fn *ssa.Function, unroll int) *FuncResult {
 		for _, cs := range spec.Callees {
 			if g.calleeUse[cs] == 0 {
 				fr.UnusedCallee = append(fr.UnusedCallee, cs.Name)
+				for _, c := range cs.Requires {
+					fr.GuardClauses = append(fr.GuardClauses, fr.Name+" :: callee "+cs.Name+" "+c.ID)
+				}
 			}
 		}
 		for anchor, cl := range spec.SetAts {
